@@ -20,15 +20,43 @@ pub fn eval(ctx: &mut Ctx, c: &EncCase, tag: &str) {
     let case = || c.to_case("planwork");
     let (input, mask) = (&c.input, c.mask);
     let _ = datamatrix::verif::take_planner_stats();
-    let r = guard(|| datamatrix::data::encodation_plan(input, &list, modes_from_mask(mask)).is_some());
+    // plan either through the planning API or (when a prefix is requested) through the encoder, which hands the
+    // planner the number of codewords already written (FNC1, Macro, ECI)
+    let (macros, eci, fnc1) = (c.macros, c.eci, c.fnc1);
+    let via_encoder = eci.is_some() || macros || fnc1 || c.order % 2 == 1;
+    let r = if via_encoder {
+        match builder(c) {
+            Some(b) => guard(|| b.encode_eci(input, eci).is_ok()),
+            None => return ctx.harness_error("bad list spec"),
+        }
+    } else {
+        guard(|| datamatrix::data::encodation_plan(input, &list, modes_from_mask(mask)).is_some())
+    };
     let st = datamatrix::verif::take_planner_stats();
+    if st.calls == 0 {
+        // the encoder refused before planning (empty list, input longer than the theoretical limit)
+        ctx.count("encoder_refused_before_planning");
+        return;
+    }
+    // the planner sees the input without a stripped macro envelope: its own record of the length is authoritative
+    let n_seen = st.input_len;
     if r.is_err() {
         ctx.count("plan.panic(C11)");
     }
     if st.calls != 1 {
-        return ctx.harness_error(format!("expected exactly one optimize() call, hook saw {}", st.calls));
+        // one encode must plan once; several planner invocations are only tolerable if their total work stays
+        // within the bound for one pass over the input
+        ctx.count("multiple_planner_calls");
+        let nfull = c.input.len();
+        if st.steps > step_bound(nfull) {
+            return ctx.violation("steps_exceed_linear_bound", &case(), format!("{} planner invocations with {} steps in total for n = {} (bound 216(n+1)+6 = {})", st.calls, st.steps, nfull, step_bound(nfull)));
+        }
+        if st.max_live > MAX_LIVE {
+            return ctx.violation("live_plans_exceed_36", &case(), format!("{} candidate plans alive after pruning", st.max_live));
+        }
+        return;
     }
-    let n = c.input.len();
+    let n = n_seen;
     if st.max_live > MAX_LIVE {
         return ctx.violation("live_plans_exceed_36", &case(), format!("{} candidate plans alive after pruning (bound {}), n = {}", st.max_live, MAX_LIVE, n));
     }
@@ -130,6 +158,20 @@ pub fn run(ctx: &mut Ctx) {
         }
         item += 1;
     }
+    // long inputs with many segments through the encoder (a long Base256 run first, then alternating classes)
+    for k in 0..ctx.budget(16 * 4, 16 * 40) as usize {
+        let head = [0usize, 249, 250, 251, 600][k % 5];
+        let mut input: Vec<u8> = (0..head).map(|i| 0x80 + (i % 100) as u8).collect();
+        let blocks = 20 + (k % 7) * 15;
+        for b in 0..blocks {
+            let cls = [Class::Upper, Class::Lower, Class::Digit, Class::EdiPunct][(b + k) % 4];
+            for _ in 0..12 {
+                input.push(inputs::class_char(&mut ctx.rng, cls));
+            }
+        }
+        input.truncate(3000);
+        eval(ctx, &EncCase { input, list: "default".into(), mask: 63, macros: false, fnc1: false, eci: None, order: 1, prelude: 0, skipdef: false }, "long_segmented_through_encoder");
+    }
     let n = ctx.budget(100_000, 3_000_000);
     for i in 0..n {
         let mut c = gen_case(&mut ctx.rng, 3116);
@@ -138,6 +180,9 @@ pub fn run(ctx: &mut Ctx) {
             let extra = inputs::gen_input(&mut ctx.rng, 3116);
             c.input.extend(extra);
             c.input.truncate(3200);
+        }
+        if i % 5 == 1 {
+            c.eci = Some(*ctx.rng.pick(&[3u32, 26, 126, 127, 16383, 999999]));
         }
         eval(ctx, &c, "generated");
     }
